@@ -439,7 +439,7 @@ def explore_task(modname, tier, casename, prefix, max_paths, opts):
             "ops_hit": sorted(OPS_HIT)}
 
 
-def validate_task(modname, tier, casename, model_json, opts):
+def validate_task(modname, tier, casename, model_json, opts, skip=()):
     """Proxy-layer validation: the same inputs through (a) the proxies holding exact numbers and (b) the real
     code on plain tensors; every obligation must hold in both and observables must agree."""
     import torch
@@ -455,7 +455,7 @@ def validate_task(modname, tier, casename, model_json, opts):
         if r["exc"]:
             problems.append(f"{tag}: raised {r['exc']['type']}: {r['exc']['msg']} {r['exc']['blame']}\n{r['exc'].get('tb','')}")
         for k, t in r["obs"].items():
-            if t is False:
+            if t is False and k not in skip:
                 problems.append(f"{tag}: obligation {k} false on a model of a path where the solver proved it")
     if not problems:
         if set(a["obs"]) != set(b["obs"]):
